@@ -62,9 +62,10 @@ Section proofs.
   Lemma regs_app l1 l2 : regs (l1 ++ l2) = regs l1 ++ regs l2.
   Proof. apply omap_app. Qed.
 
-  Lemma kstep_kinv steps w e : ctor_ok steps dr dg = true → KInv w → KInv (kstep steps dr dg w e).
+  Lemma kstep_kinv steps w e : ctor_ok steps dr dg = true → KInv w → KInv (kstep steps dr dg false w e).
   Proof.
-    intros Hok (HI & Hnd & Hin & Hall). destruct e as [d f|k]; simpl.
+    intros Hok (HI & Hnd & Hin & Hall). destruct e as [d f|k|k]; simpl.
+    3: { destruct (cobjs w !! k); done. }
     - destruct (crun steps f d h0 (cman w)) as [[h' m'] ok] eqn:E.
       destruct (crun_spec steps f d h0 (cman w) h' m' ok Hok HI E) as (I1 & I2 & I3 & I4 & I5).
       unfold KInv. simpl. rewrite regs_app.
@@ -116,7 +117,7 @@ Section proofs.
       destruct (Hin x) as [Hu Hp]; [set_solver|]. split; [|done]. simpl. set_solver.
   Qed.
 
-  Lemma krun_kinv steps es : ctor_ok steps dr dg = true → KInv (krun steps dr dg es).
+  Lemma krun_kinv steps es : ctor_ok steps dr dg = true → KInv (krun steps dr dg false es).
   Proof.
     intros Hok. unfold krun. generalize cw0_kinv. generalize cw0. induction es as [|e es IH]; intros w Hw; simpl; [done|].
     apply IH. by apply kstep_kinv.
@@ -136,7 +137,7 @@ Section proofs.
       later time), the complete objects that still exist have pairwise distinct, positive IDs -- and every complete object has
       an ID that the manager handed out to it. *)
   Theorem failed_ctor_unique steps es : ctor_ok steps dr dg = true →
-    let w := krun steps dr dg es in
+    let w := krun steps dr dg false es in
     NoDup (klive w) ∧ (∀ i, i ∈ klive w → 0 < i) ∧ ∀ o, o ∈ cobjs w → cdone o = true → hreg (ch o) = true ∧ is_Some (hid (ch o)).
   Proof.
     intros Hok w. destruct (krun_kinv steps es Hok) as (_ & Hnd & Hin & Hall). fold w in Hnd, Hin, Hall.
@@ -162,9 +163,18 @@ Proof. vm_compute. done. Qed.
     object is destroyed and its destructor releases 2; the next brush is handed 2: IDs 1, 2, 2. *)
 Definition failed_ctor_history : list cev := [KNew (-1) None; KNew (-1) None; KNew 2 (Some O); KDel 2; KNew (-1) None].
 Lemma failed_ctor_refuted :
-  klive (krun attrs_raw_then_convert true false failed_ctor_history) = [1; 2; 2] ∧
-  klive (krun attrs_guarded true true failed_ctor_history) = [1; 2; 3] ∧
-  klive (krun attrs_raw_then_convert false false failed_ctor_history) = [1; 2; 3].
+  klive (krun attrs_raw_then_convert true false false failed_ctor_history) = [1; 2; 2] ∧
+  klive (krun attrs_guarded true true false failed_ctor_history) = [1; 2; 3] ∧
+  klive (krun attrs_raw_then_convert false false false failed_ctor_history) = [1; 2; 3].
+Proof. vm_compute. done. Qed.
+
+(** copy.copy() left to the default protocol: the copy of brush 1 shares its ID at once; when the copy dies its destructor releases
+    the ID (the flag was copied with the other fields, so the guard does not help), and the next brush is handed 1 while the original
+    still holds it. *)
+Lemma shallow_alias_refuted :
+  klive (krun attrs_guarded true true true [KNew (-1) None; KAlias 0]) = [1; 1] ∧
+  klive (krun attrs_guarded true true true [KNew (-1) None; KAlias 0; KDel 1; KNew (-1) None]) = [1; 1] ∧
+  klive (krun attrs_guarded true true false [KNew (-1) None; KAlias 0; KDel 1; KNew (-1) None]) = [1; 2].
 Proof. vm_compute. done. Qed.
 
 (** [fail_states] is what [crun] leaves behind when it raises. *)
